@@ -885,6 +885,9 @@ func (req *IdpAuthnRequest) MakeAssertionEl() error {
 	{
 		doc := etree.NewDocument()
 		doc.SetRoot(signedAssertionEl)
+		// Write carriage returns as character references: written raw, an XML
+		// parser turns them into line feeds and the signed content changes.
+		doc.WriteSettings.CanonicalText = true
 		signedAssertionBuf, err = doc.WriteToBytes()
 		if err != nil {
 			return err
@@ -929,6 +932,9 @@ func (req *IdpAuthnRequest) PostBinding() (IdpAuthnRequestForm, error) {
 
 	doc := etree.NewDocument()
 	doc.SetRoot(req.ResponseEl)
+	// Write carriage returns as character references: written raw, an XML
+	// parser turns them into line feeds and the signed content changes.
+	doc.WriteSettings.CanonicalText = true
 	responseBuf, err := doc.WriteToBytes()
 	if err != nil {
 		return form, err
